@@ -81,7 +81,7 @@ CHECKS = {
    note="R4 decides strictness; strings that merely start with a date are unconstrained. " + A_NOTE),
  "C19": dict(engine="C-lattice", design_ref="5/C19",
    technique="exhaustive enumeration of a finite grid of generated client programs (one type substitution each, from a compiling base), type-checked against the working tree by one cargo check --keep-going; compile-table reference model",
-   text="538 generated programs: 6 operations x 8 token protocols x 8 key protocols, nonce version x token version, purpose misuse (encrypt/decrypt on public, sign/verify on local) at the core and generic-builder layers, set_implicit_assertion on 5 holder types x 8 protocols, symmetric key with public purpose, asymmetric keys from Key<N> for N in {32,48,49,64} and from fixed-size arrays / array references of right and wrong sizes. A program must compile iff the table says so; a must-not-compile program must fail with a type-system error code located on its substituted line (anything else is a machinery error, not a pass). Same grid in both tiers.",
+   text="570 generated programs: 6 operations x 8 token protocols x 8 key protocols, nonce version x token version, purpose misuse (encrypt/decrypt on public, sign/verify on local) at the core and generic-builder layers, set_implicit_assertion on 5 holder types x 8 protocols, symmetric key with public purpose, symmetric key with public purpose through From<Key<32>> and eight other construction routes (Default, From of arrays and slices, Into, TryFrom, FromStr), asymmetric keys from Key<N> for N in {32,48,49,64} and from fixed-size arrays / array references of right and wrong sizes. A program must compile iff the table says so; a must-not-compile program must fail with a type-system error code located on its substituted line (anything else is a machinery error, not a pass). Same grid in both tiers.",
    note="rustc 1.95 is the type-checking oracle; the grid is the quantifier's own enumeration (operation, token protocol, key protocol)."),
  "C20": dict(engine="C-lattice", design_ref="5/C20",
    technique="explicit-state enumeration of the feature-subset lattice; cargo build+run of a cfg-gated smoke client per state",
